@@ -19,7 +19,7 @@ TRUSTED = [
 def run_recorded(case, fault_at=None):
     from atsim.potentials import writeTABEAM, writeTABEAMFinnisSinclair
     from atsim.potentials.eam_tabulation import TABEAM_EAMTabulation, TABEAM_FinnisSinclair_EAMTabulation
-    rec = layout.Recorder(); rec.fault_at = fault_at
+    rec = layout.Recorder(); rec.fault_at = fault_at; rec.zero_every = case.get('zero_every')
     eam, pots = ec.build_objects(case, rec)
     out = layout.RecFile(rec)
     if case['route'] == 'function':
